@@ -65,7 +65,8 @@ impl TV {
 
     /// Format through a compiled Formatter into a String sink.
     pub fn format_with(&self, f: &Formatter) -> Result<String, sqldatetime::Error> {
-        let mut s = String::new();
+        // one allocation up front: growing a String byte by byte from many threads serialises on the allocator
+        let mut s = String::with_capacity(128);
         match self.ty {
             Ty::Date => f.format(Date::try_from_days(self.raw as i32).unwrap(), &mut s)?,
             Ty::Time => f.format(Time::try_from_usecs(self.raw).unwrap(), &mut s)?,
